@@ -80,7 +80,7 @@ public:
             switch (r.weighted({ 70, 10, 8, 6, 6 })) {
             case 0:
                 // sent/received, sender variant, shape
-                p.ops.append(mkop(QStringLiteral("carbon"), { (qint64)r.uniform(2), (qint64)r.uniform(16), r.weighted({ 60, 15, 15, 10 }) }, {}, salt));
+                p.ops.append(mkop(QStringLiteral("carbon"), { (qint64)r.uniform(2), (qint64)r.uniform(16), r.weighted({ 52, 13, 13, 8, 7, 7 }) }, {}, salt));
                 break;
             case 1:
                 p.ops.append(mkop(QStringLiteral("dl"), { 1 }, {}, salt));
@@ -234,6 +234,21 @@ public:
                             // nested: the marker sits inside a second wrapper whose own outer sender is a contact
                             const QByteArray nested = "<message xmlns='jabber:client' from='mallory@contacts.example/x' to='" + full.toUtf8() + "'><received xmlns='urn:xmpp:carbons:2'><forwarded xmlns='urn:xmpp:forward:0'>" + innerMsg + "</forwarded></received></message>";
                             payload = "<" + tag + " xmlns='urn:xmpp:carbons:2'><forwarded xmlns='urn:xmpp:forward:0'>" + nested + "</forwarded></" + tag + ">";
+                            wr.nestedOnly = true;
+                            break;
+                        }
+                        case 4: {
+                            // no carbon at the top level: a contact's forged carbon comes back inside an archive result
+                            // (XEP-0313 results are sent by the own account)
+                            const QByteArray forged = "<message xmlns='jabber:client' from='mallory@contacts.example/x' to='" + full.toUtf8() + "'><" + tag + " xmlns='urn:xmpp:carbons:2'><forwarded xmlns='urn:xmpp:forward:0'>" + innerMsg + "</forwarded></" + tag + "></message>";
+                            payload = "<result xmlns='urn:xmpp:mam:2' queryid='q" + QByteArray::number(wr.no) + "' id='a" + QByteArray::number(wr.no) + "'><forwarded xmlns='urn:xmpp:forward:0'><delay xmlns='urn:xmpp:delay' stamp='2021-01-01T00:00:00Z'/>" + forged + "</forwarded></result>";
+                            wr.nestedOnly = true;
+                            break;
+                        }
+                        case 5: {
+                            // likewise inside a plain XEP-0297 forward
+                            const QByteArray forged = "<message xmlns='jabber:client' from='mallory@contacts.example/x' to='" + full.toUtf8() + "'><" + tag + " xmlns='urn:xmpp:carbons:2'><forwarded xmlns='urn:xmpp:forward:0'>" + innerMsg + "</forwarded></" + tag + "></message>";
+                            payload = "<body>look what I got</body><forwarded xmlns='urn:xmpp:forward:0'>" + forged + "</forwarded>";
                             wr.nestedOnly = true;
                             break;
                         }
